@@ -53,7 +53,7 @@ def check_construction(case, rec):
     if case["common"] is not None:
         kwargs["common"] = case["common"]
     if case["counts"]:
-        kwargs["counts"] = {v: flat.count(v) for v in sorted(set(flat))}
+        kwargs["counts"] = c01.ordered_counts(flat, case.get("counts_order", "value"))
         for v in case.get("counts_extra", []):
             kwargs["counts"].setdefault(v, 0)  # categories that do not occur, listed with count 0
     if case["mapping"] is not None:
@@ -84,7 +84,20 @@ def _enum_long(tier, shard, nshards):
     return G.enum_long_entries(tier, shard, nshards)
 
 
+def _merges(case, rec):
+    from .. import giant as G
+
+    return G.check_merges(case, rec)
+
+
+def _enum_merges(tier, shard, nshards):
+    from .. import giant as G
+
+    return G.enum_merges(tier, shard, nshards)
+
+
 SUBS = [
+    Sub("merges", _merges, enumerate=_enum_merges, exhaustive=True, shards={"quick": 4, "thorough": 8}),
     Sub("long_entries", _long_entries, enumerate=_enum_long, exhaustive=True, shards={"quick": 4, "thorough": 8}),
     Sub("histories", M.replay, runner=runner, examples=EX, weight=5),
     Sub("construction", check_construction, strategy=construction_cases,
